@@ -44,7 +44,7 @@ def run(tier, seed, replay=None):
     if rc != 0:
         res.violation("oracle-build", "oracle for C16 does not build: " + log[-800:], dict(kind="build"), False)
         return res.finish()
-    ok, log, _ = vlib.build_harness("driver")
+    ok, log, exe = vlib.build_harness("driver", PID, ["c16_test.go"])
     if not ok:
         res.violation("harness-build", "Go harness does not build against /repo: " + log[-1500:], dict(kind="build"), False)
         return res.finish()
@@ -79,7 +79,7 @@ def run(tier, seed, replay=None):
                 for p in (8,):
                     cases.append(("sum %s/%d" % (ip_s(a), p), ["sum %d %d" % (a, p)], "sum", a, p))
 
-    rc, go_lines, glog = vlib.run_harness("driver", "TestVerifC16", "\n".join(c[0] for c in cases) + "\n", timeout=900)
+    rc, go_lines, glog = vlib.run_harness(exe, "TestVerifC16", "\n".join(c[0] for c in cases) + "\n", timeout=900)
     oreq = [q for c in cases for q in c[1]]
     orc, oout = vlib.run_oracle("c16", "\n".join(oreq) + "\n", timeout=900)
     olines = oout.split("\n")
